@@ -18,7 +18,7 @@ LEVEL_TEXT = ("seeded search over (content length mod 16, trailing zeros, key cl
               "every cipher call index of the write is a candidate fault point and a seeded one is injected; sampling")
 LEVEL_NOTE = ("secrecy uses only high-entropy secrets (>= 8 random bytes) so a chance match has probability < 2^-50; "
               "RefAES is validated against FIPS-197/SP 800-38A vectors and openssl in setup")
-RUNS = {"quick": 6000, "thorough": 200000}
+RUNS = {"quick": 6000, "thorough": 120000}
 OPTIMIZED_PASS = {"quick": 500, "thorough": 4000}   # extra runs under PYTHONOPTIMIZE=1 (assert statements removed)
 RULE = ("per run one BF3/BEC2 file with 1-3 session-key-encrypted components (hand-made and set_config), content lengths "
         "over all residues mod 16 with 0-20 trailing zero bytes or all-zero, and one cipher configuration: real, missing, or "
